@@ -386,10 +386,58 @@ def grid(ctx, only_cell=None):
         shutil.rmtree(root, ignore_errors=True)
 
 
+def appearing_output(ctx, viol):
+    """The output does not exist when the command starts and appears while the archive header is being fetched
+    (a second clone, a slow server): it exists when the command gets to open it, so the command must refuse and
+    leave it alone. Deterministic: the server creates the file before it answers the first request. -> cases run"""
+    bita = ctx["bita"]
+    root = tempfile.mkdtemp(prefix="verif-grid-race-")
+    n = 0
+    try:
+        src = words("ABCDABEF")
+        with open(os.path.join(root, "src.bin"), "wb") as f:
+            f.write(src)
+        r = sh([bita, "compress", "--fixed-size", "4B", "--compression", "none", "-i", "src.bin", "a.cba"], root)
+        if r.returncode != 0:
+            raise RuntimeError("compress failed: " + r.stderr.decode()[-300:])
+        with open(os.path.join(root, "a.cba"), "rb") as f:
+            ab = f.read()
+        for extra in ([], ["--verify-output"], ["--http-retry-count", "2"]):
+            d = os.path.join(root, f"r{n}")
+            os.makedirs(d)
+            out = os.path.join(d, "out.img")
+            other = b"created by somebody else in the meantime " * 3
+
+            def behaviour(index, path, rng, out=out, other=other):
+                if index == 0 and not os.path.exists(out):
+                    with open(out, "wb") as f:
+                        f.write(other)
+                return None
+            with RangeServer({"a.cba": ab}, behaviour=behaviour) as srv:
+                r = sh([bita, "clone"] + extra + [srv.url("a.cba"), "out.img"], d)
+            n += 1
+            try:
+                with open(out, "rb") as f:
+                    now = f.read()
+            except OSError:
+                now = None
+            detail = {"cmd": "clone", "case": "output appears while the header is fetched", "extra": extra, "exit": r.returncode,
+                      "stderr": r.stderr.decode(errors="replace")[-300:], "leg_module": LEG, "function": "appearing_output"}
+            if r.returncode == 0:
+                viol.add("refusal-expected-but-exit-zero", detail)
+            if now != other:
+                viol.add("refused-but-output-changed", detail)
+    finally:
+        shutil.rmtree(root, ignore_errors=True)
+    return n
+
+
 def leg(ctx):
     t0 = time.time()
     pid = ctx["pid"]
     viol, outcomes, nclone, ncomp = grid(ctx)
+    if pid == "C14":
+        outcomes["clone:output-appears-meanwhile"] = appearing_output(ctx, viol)
     mine = [c for c in viol.v.values() if c["class"] in FACETS[pid]]
     for c in mine:
         for e in c["examples"]:
@@ -412,6 +460,10 @@ def leg(ctx):
 
 
 def replay(ctx, detail):
+    if detail.get("function") == "appearing_output":
+        v = Viol()
+        appearing_output(ctx, v)
+        return bool(v.v)
     keys_clone = ("cmd", "archive", "transport", "state", "flags", "seed", "verbose", "retry")
     keys_comp = ("cmd", "source", "input", "chunker", "compression", "state", "force", "verbose")
     keys = keys_clone if detail.get("cmd") == "clone" else keys_comp
